@@ -201,7 +201,7 @@ Proof.
   { apply Inv_set_orph; [exact HI|]. intros x Hx. apply remove_vorph_in in Hx. destruct HI as [_ _ C _]. apply C; exact Hx. }
   pose proof (Inv_vaccept D fin s0 c H0 Hc) as H1.
   destruct (vaccept verr fin s0 c) as [[s1 m] e]. simpl in H1.
-  destruct e; try exact H1. apply IH; exact H1.
+  destruct e; try exact H1; apply IH; exact H1.
 Qed.
 
 Lemma Inv_vdeliver : forall D fin s i,
